@@ -161,13 +161,43 @@ def gen_cases(pid, tier, seed, profile, wdir):
     except subprocess.TimeoutExpired as e:
         return path, 124, "harness killed after %ds (hang in the case in progress)" % limit
 
-def run_driver(cases, maxrec=20):
+def run_driver(cases, maxrec=20, shards=16):
+    """run the extracted model + oracles over a cases file; large files are split over
+    [shards] driver processes (case lines are independent), results merged in shard order"""
     fail = cases + ".fail"
-    rc, out = run([os.path.join(DRIVER, "driver"), cases, fail, str(maxrec)], timeout=3000)
+    drv = os.path.join(DRIVER, "driver")
     try:
-        summ = json.loads(out.strip().splitlines()[-1])
-    except Exception:
-        summ = dict(total=0, corr_fail=0, oracle_fail=0, crash=0, bad=1, error=out[-2000:])
+        lines = [l for l in open(cases) if l.strip() and not l.startswith("#")]
+    except OSError:
+        lines = []
+    big = len(lines) >= 2000 or sum(len(l) for l in lines) > 4_000_000
+    if not big or shards <= 1:
+        rc, out = run([drv, cases, fail, str(maxrec)], timeout=3000)
+        try:
+            summ = json.loads(out.strip().splitlines()[-1])
+        except Exception:
+            summ = dict(total=0, corr_fail=0, oracle_fail=0, crash=0, bad=1, error=out[-2000:])
+        return summ, fail
+    parts = []
+    for i in range(shards):
+        sp = "%s.shard%02d" % (cases, i)
+        with open(sp, "w") as f: f.writelines(lines[i::shards])
+        parts.append(sp)
+    procs = [subprocess.Popen([drv, sp, sp + ".fail", str(maxrec)], stdout=subprocess.PIPE,
+                              stderr=subprocess.STDOUT, env=ENV, text=True, errors="replace") for sp in parts]
+    summ = dict(total=0, corr_fail=0, oracle_fail=0, crash=0, bad=0)
+    with open(fail, "w") as ff:
+        for sp, pr in zip(parts, procs):
+            try:
+                out, _ = pr.communicate(timeout=3000)
+                one = json.loads(out.strip().splitlines()[-1])
+                for k in summ: summ[k] += one.get(k, 0)
+            except Exception as e:
+                pr.kill()
+                summ["bad"] += 1; summ["error"] = "driver shard %s: %s" % (sp, str(e)[-500:])
+            if os.path.exists(sp + ".fail"):
+                ff.write(open(sp + ".fail").read()); os.remove(sp + ".fail")
+            os.remove(sp)
     return summ, fail
 
 def parse_failures(failfile):
